@@ -106,4 +106,27 @@ CHECKS = {
         note=("trusted: site-induction schema, slice-mode havoc (abstractions listed in evidence), immutability of cfg and of the "
               "Variance constants, copies preserve class and variance; J3-J6 not proved"),
         design='DESIGN.md section 4 (C17), 2.7'),
+    'C13': dict(
+        level='exploration',
+        technique='bounded stand-in only: run-time contract on dump_program/load_program (object-graph isomorphism, identical translations in 4 languages, identical mutation results under the same random state, dump stability) on generated / erased / overwritten programs',
+        text=("NOT proved (pickle is an external library; no contract within reach of the verifier states its behaviour). For a "
+              "fixed seed list x 4 languages x mutation lineages the real save_program / ProgramProcessor replay path is run and "
+              "the read-back is compared with the original: isomorphic object graph, same symbol-table answers, byte-identical "
+              "text in all four languages, same mutation outcome/result/text under the same RNG state, stable re-dump."),
+        note="bounded: time-budgeted task list (quick 32 tasks, thorough 768); one benign known finding (reverse index of re-hashed type parameters)",
+        design='DESIGN.md section 4 (C13)'),
+    'C14': dict(
+        level='proof',
+        technique='deductive verification of the attribution glue (re.* as uninterpreted externals, recursive ghost definitions for the filter fold and per-file message lists, loop invariants) with z3; bounded evaluation of the regular expressions on rendered and real compiler output',
+        text=("Proved for every output string and every pattern list: BaseCompiler.analyze_compiler_output (inherited by Java, "
+              "Kotlin, Scala) and the Groovy override check the crash pattern first and then return exactly the matches of "
+              "ERROR_REGEX on the output with the filter patterns deleted in order, every match attributed to its own file with "
+              "its message in order, no file without a match, nothing dropped or moved; Groovy's stack-overflow rule; the "
+              "get_filename / get_error_msg overrides. What the four regular expressions match (warnings, notes, summaries, "
+              "quoted lines, crash traces) is NOT proved: rendered outputs from record lists for four compilers plus real javac "
+              "runs."),
+        note=("trusted: re.search/sub/findall as deterministic functions; kotlinc/groovyc/scalac output formats are assumptions "
+              "of the harness (only javac is installed and validated); known findings listed for message-only filter "
+              "patterns and three regex corner cases; one output shape with unvalidated grammar is not judged"),
+        design='DESIGN.md section 4 (C14)'),
 }
